@@ -46,6 +46,17 @@ impl Gen {
 
     /// append an implementation-only statement (the model is not consulted)
     pub fn push_outcome_only(&mut self, kind: &str, ex: Ex, write_set: Vec<String>, no_raise: bool) {
+        self.push_outcome_only_t(kind, ex, write_set, no_raise, false)
+    }
+
+    pub fn push_outcome_only_t(
+        &mut self,
+        kind: &str,
+        ex: Ex,
+        write_set: Vec<String>,
+        no_raise: bool,
+        must_terminate: bool,
+    ) {
         self.kinds.push(kind.to_string());
         self.script.stmts.push(Stmt {
             ex,
@@ -53,6 +64,7 @@ impl Gen {
             write_set,
             mode: crate::run::Mode::OutcomeOnly,
             no_raise,
+            must_terminate,
         });
     }
 
@@ -118,6 +130,7 @@ impl Gen {
                     write_set: Vec::new(),
                     mode: crate::run::Mode::Checked,
                     no_raise: false,
+                    must_terminate: false,
                 });
                 Ok(match r {
                     Ok(v) => Ok(v),
@@ -295,6 +308,22 @@ pub fn random_path(
                 let idx = if rng.chance(1, 3) { i as i64 - xs.len() as i64 } else { i as i64 };
                 path.push(Ix::Index(int(idx)));
                 let nx = xs[i].clone();
+                cur = nx;
+            }
+            V::Dict(d) if d.default.is_some() && rng.chance(1, 3) => {
+                // a key that is probably absent: reads see the default, `x[k] f= v` / pop / remove /
+                // consume through it must materialise a copy of the default under that key only
+                let k = if rng.chance(1, 2) {
+                    int(rng.range(0, 6))
+                } else {
+                    Ex::Str(rng.pick(&["a", "b", "k", "zz", "new"]).to_string())
+                };
+                let kv = crate::model::num_lit_or_str(&k);
+                let nx = match d.get(&kv) {
+                    Some(v) => v.clone(),
+                    None => (**d.default.as_ref().unwrap()).clone(),
+                };
+                path.push(Ix::Index(k));
                 cur = nx;
             }
             V::Dict(d) if !d.entries.is_empty() => {
